@@ -491,6 +491,18 @@ class Rig:
         self.counts["deliveries"] += 1
         return keys
 
+    def deliver_raw(self, folder, raw):
+        """Write the octets verbatim as the next message file (no line-ending
+        normalisation by the mailbox module)."""
+        path = self.maildir / folder
+        keys = [int(x) for x in os.listdir(path) if x.isdigit()]
+        k = max(keys + [0]) + 1
+        with open(path / str(k), "wb") as f:
+            f.write(raw)
+        self.bump_mtime(folder)
+        self.counts["deliveries"] += 1
+        return k
+
     def bump_mtime(self, folder):
         path = self.maildir / folder
         seq = path / ".mh_sequences"
